@@ -41,7 +41,7 @@ type absReq struct {
 	Body   []byte
 	Tag    string
 	Host   string      // "" = none
-	Hdr    [][2]string // per-entry headers (raw, http/json); canonical keys, unique per entry
+	Hdr    [][2]string // per-entry headers (raw, http/json); keys in any spelling, unique per entry up to case
 }
 
 // absItem is one element of an ammo file: a request or (uri / uripost) an in-file header line.
@@ -86,6 +86,10 @@ func genReq(w *simrt.Stream, format string, i int) *absReq {
 	} else {
 		q.URI += fmt.Sprintf("?n=%d", i)
 	}
+	if w.Draw(24) == 0 {
+		// a line longer than any default reader buffer (4096) - and, one time in three, than two of them
+		q.URI += "&long=" + strings.Repeat("q", []int{4100, 4500, 9000}[w.Draw(3)])
+	}
 	q.Tag = genTags[w.Draw(len(genTags))]
 	switch format {
 	case "uri":
@@ -121,6 +125,10 @@ func genReq(w *simrt.Stream, format string, i int) *absReq {
 				continue
 			}
 			used[key] = true
+			if w.Draw(4) == 0 {
+				// header names are case-insensitive: the file may spell them any way
+				key = []string{strings.ToLower(key), strings.ToUpper(key)}[w.Draw(2)]
+			}
 			q.Hdr = append(q.Hdr, [2]string{key, genHdrVals[w.Draw(len(genHdrVals))]})
 		}
 	}
